@@ -42,9 +42,22 @@ type heapLval struct {
 	ref Term
 }
 
-func (l heapLval) get(st *State) Term { return Select(l.e.heapGet(st, l.key), l.ref) }
+func (l heapLval) get(st *State) Term {
+	if pred := l.e.P.Memo[l.key]; pred != nil && l.e.spec == 0 && l.e.memoBusy == 0 {
+		// memo cell: its content is any value allowed by the memo predicate (sound over-approximation:
+		// every write is checked against the predicate, which speaks only about immutable data)
+		// memo cell: whatever it holds satisfies the memo predicate (every write is checked against it and
+		// the predicate speaks only about data that is fixed once the object is built)
+		l.e.Ctx.Assume(st.PC, l.e.memoPred(st, pred, l.ref))
+		return Select(l.e.heapGet(st, l.key), l.ref)
+	}
+	return Select(l.e.heapGet(st, l.key), l.ref)
+}
 func (l heapLval) set(st *State, v Term) {
 	l.e.heapSet(st, l.key, Store(l.e.heapGet(st, l.key), l.ref, v))
+	if pred := l.e.P.Memo[l.key]; pred != nil && l.e.spec == 0 && l.e.memoBusy == 0 {
+		l.e.memoWritten(st, l.key, pred, l.ref)
+	}
 }
 
 // structPtrLval: the whole struct stored at a reference (*p where p points to a struct).
